@@ -133,6 +133,46 @@ def fixed_container_content(ctx, rng):
                               {"inner": name, "foot511": foot511, "size": int(v.size), "want_size": size_b, "diff": disk.first_diff(content, got)})
 
 
+def tail_lookalikes(ctx, rng):
+    """Guest content whose *last* sectors look like VHD metadata (a nested image ends in its own footer; a nested dynamic image of an
+    older tool in a 511-byte one): the image's footer is the one at the very end of the file, whatever precedes it."""
+    import io
+    from dissect.hypervisor.disk.vhd import VHD
+    from harness import enc_vhd, patterns
+    tails = {"fixed-footer": enc_vhd.footer(8192, 2, 0xFFFFFFFFFFFFFFFF), "dynamic-footer": enc_vhd.footer(1 << 30, 3, 512),
+             "footer-511": enc_vhd.footer(16384, 2, 0xFFFFFFFFFFFFFFFF)[:511] + b"\0", "cookie-only": b"conectix".ljust(512, b"\0"),
+             "two-footers": enc_vhd.footer(4096, 2, 0xFFFFFFFFFFFFFFFF) + enc_vhd.footer(12288, 3, 512), "cookie-at-end": bytes(504) + b"conectix",
+             "dyn-header": enc_vhd.dyn_header(1536, 3, 4096)[:1024]}
+    for name, tail in tails.items():
+        for foot511 in (False, True):
+            for kind in ("fixed", "dynamic"):
+                n = 3
+                img = {"kind": kind, "n": n, "cb": 1, "bat": {0: 0, 1: -1, 2: 1}, "size": n, "foot511": foot511}
+                vf, info = enc_vhd.build(img, block_size=4096, P=2, file_id=6)
+                raw = bytearray(vf.peek_bytes(0, vf.size()))
+                flen = 511 if foot511 else 512
+                # the guest's last bytes are the last bytes in front of the footer (fixed: the content itself; dynamic: block 2 is stored last)
+                raw[len(raw) - flen - len(tail):len(raw) - flen] = tail
+                size_b = n * 4096
+                if kind == "fixed":
+                    want = bytes(raw[:size_b])
+                else:
+                    blk = lambda p: bytes(raw[info["base"] + p * info["stride"]: info["base"] + p * info["stride"] + 4096])  # noqa: E731
+                    want = blk(0) + bytes(4096) + blk(1)
+                ctx.case(key=("tail-lookalike", name, foot511, kind), nontrivial=True)
+                try:
+                    v = VHD(io.BytesIO(bytes(raw)))
+                    got = v.read(size_b + 10)
+                    sz = int(v.size)
+                except Exception as e:  # noqa: BLE001
+                    ctx.violation({"format": "vhd", "fail": "read-raised", "sub": "tail-lookalike", "inner": name, "exc": type(e).__name__},
+                                  {"inner": name, "foot511": foot511, "kind": kind, "error": repr(e)[:300]})
+                    continue
+                if got != want or sz != size_b:
+                    ctx.violation({"format": "vhd", "fail": "read-mismatch", "sub": "tail-lookalike", "inner": name, "kind": kind},
+                                  {"inner": name, "foot511": foot511, "kind": kind, "size": sz, "want_size": size_b, "diff": disk.first_diff(want, got)})
+
+
 def _attrs(img, prof):
     return {"block_size": prof["block_size"], "kind": img["kind"], "foot511": img["foot511"]}
 
@@ -150,6 +190,7 @@ def run(ctx):
     diskprop.replay_states(ctx, "vhd", sts, PROFILES_THOROUGH if thorough else PROFILES_QUICK, build,
                            attrs_of=_attrs, cap=80 if thorough else 48, sectors_api=_sectors)
     fixed_container_content(ctx, random.Random(ctx.seed + 404))
+    tail_lookalikes(ctx, random.Random(ctx.seed + 405))
     diskprop.traces(ctx, "vhd", lambda tid, r: trace_for(tid, r, thorough), 400 if thorough else 64,
                     "TraceDisk", "TraceDisk.cfg", lambda t: {"format": "vhd", "block_size": t["geo"]["cellB"], "kind": t["img"]["kind"]})
 
